@@ -325,16 +325,14 @@ def check_resubmission_cap(ctx, ctl) -> None:
     rule = "C02.R14-unrecoverable-means-the-documented-cap"
     rc = ctl.func("Controller._restartComponent")
     ctx.analysed(rc)
-    tests = [n for n in source.walk_own(rc) if isinstance(n, ast.Compare) and len(n.ops) == 1 and any(
-        isinstance(x, ast.Call) and last_attr(x) == "resubmissionAttempts" for x in ast.walk(n))]
-    ctx.floor(rule, len(tests), 1, "comparisons of resubmissionAttempts() with the cap in _restartComponent")
-    for t in tests:
-        left_is_attempts = isinstance(t.left, ast.Call) and last_attr(t.left) == "resubmissionAttempts"
-        ok = (left_is_attempts and isinstance(t.ops[0], ast.Lt)) or (not left_is_attempts and isinstance(t.ops[0], ast.Gt))
-        ctx.ob(rule, t, ok, "a resubmission is attempted only while the attempts are strictly below the cap" if ok else
-               "the controller resubmits while resubmissionAttempts() %s the cap: one more submission than documented - the exit that should be "
-               "unrecoverable is retried, and if the next execution succeeds the component ends FINISHED and the stage is reported complete "
-               "instead of failed" % type(t.ops[0]).__name__, construct="resubmissionAttempts() < cap")
+    from checks.c12 import cap_tests
+    found = cap_tests(rc, CFG(rc))
+    ctx.floor(rule, len(found), 1, "comparisons of resubmissionAttempts() with the cap in _restartComponent")
+    for (tn, lab, exact, txt) in found:
+        ctx.ob(rule, tn.ast, exact, "a resubmission is attempted only while the attempts are strictly below the cap" if exact else
+               "the controller resubmits when resubmissionAttempts() EQUALS the cap ('%s'): one more submission than documented - the exit that "
+               "should be unrecoverable is retried, and if the next execution succeeds the component ends FINISHED and the stage is reported "
+               "complete instead of failed" % txt, construct="resubmissionAttempts() < cap")
     caps = [a for f in ctl.functions.values() for a in source.walk_own(f) if isinstance(a, ast.Assign) and any(
         isinstance(t_, ast.Attribute) and t_.attr == "_max_resubmission_attempts" for t_ in a.targets)]
     for a in caps:
